@@ -69,6 +69,20 @@ FILES = {
                         unit='U-colorfns', functions=['color.lighten / darken / saturate / desaturate / grayscale / complement (channel arithmetic; extracted ranges of the closures)']),
     'cssdata.rs': dict(module='output::cssdata::kani_verif', src='rsass/src/output/cssdata.rs',
                        unit='U-buffer-tail-k', functions=['CssData::into_buffer (tail: charset/BOM marker, newline trimming; extracted range)']),
+    'mathfns.rs': dict(module='sass::functions::math::kani_verif', src='rsass/src/sass/functions/math.rs',
+                       unit='U-mathfns', functions=['math.ceil / floor / percentage (closures, extracted ranges)', 'math::round::sass_round (extracted range)',
+                                                    'math::find_extreme (min / max fold)', 'math::cmp2']),
+    'sel_compound.rs': dict(module='css::selectors::compound::kani_verif', src='rsass/src/css/selectors/compound.rs',
+                            unit='U-selectors', functions=['CompoundSelector::no_placeholder']),
+    'sel_pseudo.rs': dict(module='css::selectors::pseudo::kani_verif', src='rsass/src/css/selectors/pseudo.rs',
+                          unit='U-selectors', functions=['Pseudo::no_placeholder']),
+    'sel_selector.rs': dict(module='css::selectors::selector::kani_verif', src='rsass/src/css/selectors/selector.rs',
+                            unit='U-selectors', functions=['Selector::no_placeholder', 'SelectorSet::no_placeholder', 'Pseudo::no_placeholder',
+                                                           'CompoundSelector::no_placeholder']),
+    'formalargs.rs': dict(module='sass::formal_args::kani_verif', src='rsass/src/sass/formal_args.rs',
+                          unit='U-formalargs', functions=['FormalArgs::eval (body, extracted range; sub-scope and default evaluation replaced by a recording binder)',
+                                                          'css::CallArgs::take_positional', 'css::CallArgs::only_named', 'css::CallArgs::check_no_named',
+                                                          'sass::Name (- / _ equivalence)']),
     'comment.rs': dict(module='css::comment::kani_verif', src='rsass/src/css/comment.rs',
                        unit='U-comment', functions=['Comment::write']),
 }
@@ -81,6 +95,10 @@ BOUNDED_FILES = {
     'opt.rs': 'sequences of at most 4 items, payload type u8',
     'value.rs': 'one representative payload per non-recursive constructor (no nested Value)',
     'comment.rs': 'comment text of bounded length',
+    'formalargs.rs': 'eight concrete call shapes (at most 2 parameters + rest, at most 3 arguments)',
+    'sel_compound.rs': 'concrete compound selectors with at most one placeholder / class / id',
+    'sel_pseudo.rs': 'constructors only',
+    'sel_selector.rs': 'concrete selector structures: lists of at most 3 complex selectors, one combinator, one pseudo-class with a selector argument',
     'cssdata.rs': 'buffers of at most 4 bytes; style concrete per harness',
     'evalops.rs': 'one representative payload per value constructor without a nested Value (12 of 17 kinds); scalar payloads symbolic',
 }
@@ -100,12 +118,18 @@ OVERRIDES = [
     (r'^c01_get_indent_contract$', dict(bounded='len <= 160; modular in long_indent, whose contract is checked for four sampled lengths only')),
     (r'^c28_get_list_shape$', dict(bounded='lists of at most 2 elements', functions=['get_list'])),
     (r'^c28_index_of$', dict(functions=['index_of'])),
+    (r'^c26_(slice_code|insert_code|insert_into|index_first|length_counts)', dict(bounded='the concrete string "äbc" (and four other literals), indices -5..=5',
+        functions=['string.slice / insert / index / length (complete closure bodies, extracted ranges)'])),
+    (r'^c29_number_', dict(functions=['Number::ceil', 'Number::floor', 'Number::round', 'Number::abs', 'Number::trunc'])),
+    (r'^c29_min_max_', dict(bounded='three / two concrete arguments (90px, 1in, 95px; 2, 3; 1px, 1s)')),
     (r'^c17_for_end_unit', dict(functions=['sass::SrcRange::evaluate (unit conversion of the end value, extracted range)'],
                                 bounded='seven concrete (value, unit, unit) triples')),
     (r'^c13_valuemap_', dict(functions=['OrderMap<css::Value, css::Value>::{get, contains_key, insert, remove} (the instantiation map.get/has-key/set/remove use)'],
                              bounded='maps of one or two entries with concrete keys (1in / 96px / 95px, true, null)')),
     (r'^c13_map_literal_', dict(bounded='two-entry literals, six concrete key pairs')),
     (r'^c28_zip_truncates', dict(bounded='three lists of at most 3 elements')),
+    (r'^c28_index_(first|second|absent|empty)', dict(bounded='four concrete lists of at most two elements')),
+    (r'^c28_separator_name|^c28_join_bracketed', dict(bounded='one representative value per kind')),
     (r'^c01_number_into_integer$', dict(functions=['Number::into_integer'])),
     (r'^c01_number_display_fraction_bound$', dict(functions=['Number (fraction digit bound used by Display)'])),
     (r'^c12_number_', dict(functions=['<Number as PartialEq>::eq', '<Number as PartialOrd>::partial_cmp'])),
@@ -173,7 +197,7 @@ FILE_ASSUMPTIONS = {
 
 _h_re = re.compile(r'^\s*fn\s+((?:c\d\d|cover|canary)_[A-Za-z0-9_]+)\s*\(\s*\)', re.M)
 _per_style_re = re.compile(r'^per_style!\((\w+),\s*(\w+),\s*(\w+),\s*(\w+)\);', re.M)
-_target_re = re.compile(r'^(?:target|left|pair|per_tag|per_kind|and_or|map_lit|arm_kind)!\((\w+),', re.M)
+_target_re = re.compile(r'^(?:target|left|pair|per_tag|per_kind|and_or|map_lit|arm_kind|index_case)!\((\w+),', re.M)
 _shape_re = re.compile(r'^shape!\((\w+),\s*(\w+),', re.M)
 _pair2_re = re.compile(r'^(?:arm_)?pair!\((c11_\w+),\s*(c11_\w+),', re.M)
 _mac_re = re.compile(r'^(?:per_\w+|gen_\w+)!\(([^;]*)\);', re.M)
